@@ -33,6 +33,8 @@ def reply_mix(ctx, cfg, rounds=1, on_reply=None, tcp=True):
             e = gen.endp(rng, cfg, v6)
             if not v6:
                 emit("arp", gen.arp_request(e))
+                # relayed / proxied ARP: the sender hardware address inside the request differs from the frame's source
+                emit("arp", pkt.eth(pkt.BCAST, e.cmac, pkt.ET_ARP, pkt.arp(1, gen.rnd_mac(rng), e.cip, b"\0" * 6, e.sip)))
                 emit("arp", pkt.eth(cfg.mac, e.cmac, pkt.ET_ARP, pkt.arp(1, e.cmac, e.cip, gen.rnd_mac(rng), e.sip) + b"\0" * rng.randrange(0, 19)))
             else:
                 emit("ns", gen.ns_frame(e, e.sip, opts=b"\x01\x01" + e.cmac, dst_solicited=rng.random() < 0.5))
